@@ -54,3 +54,17 @@ Theorem c09_raw_header_expanded_sample : forall f hdr rate pool drops infmt inif
     meq m (framed (sample_base rate inif outif flen) f).
 Proof. exact raw_header_expanded_sample. Qed.
 Print Assumptions c09_raw_header_expanded_sample.
+
+(* THE SFLOW COLUMN OF THE DOCUMENTATION TABLE IS IMPLEMENTED.  Spec/DocTable.v doc_sflow (regenerated from
+   docs/protocols.md on every build): the sFlow cell of every row as written.  For EVERY row
+   (Spec/DocCheck2.v sflow_cell_ok; a cell in words the check does not know fails):
+     "From ExtendedSwitch | ExtendedRouter | ExtendedGateway" -> a flow sample carrying only that record sets the
+        column, and a sample carrying only one of the other two does not;
+     "Included" -> the column is set from the sampled header of one of five probe frames (VLAN+IPv4+TCP, IPv6+UDP,
+        IPv4+ICMP, MPLS+IPv4+UDP, IPv4 fragment), or from the sample / datagram (rate, sequence number, interfaces);
+     "Agent IP", "=TimeReceived", "Length of sample", "=1", "SFLOW_5" -> exactly that value.
+   The same probe datagrams are sent through the real SFlowPipe and compared with the model on every run. *)
+From GF Require Import Spec.DocCheck2.
+Theorem c09_doc_sflow_column_implemented : sflow_doc_failures = [].
+Proof. vm_compute. reflexivity. Qed.
+Print Assumptions c09_doc_sflow_column_implemented.
